@@ -115,7 +115,7 @@ def _record(args):
     tid, calls = args
     import buildrun
     from sym_metanet.errors import InvalidNetworkError
-    U = buildrun.Universe()
+    U = buildrun.Universe(shared=sum(map(ord, str(tid))) % 2 == 1)
     obs, done = [], []
     for c in calls:
         if c[0] in ("in_links", "out_links") and c[1] not in [U.idof(n) for n in U.net.graph.nodes]:
